@@ -115,6 +115,26 @@ struct Conv {
         return v * 10;
     }
 };
+// a converter that re-arms itself for a second asynchronous step (the pattern of the repository's Conv2 test class)
+struct Rearm {
+    Src<int> second;
+    int second_out = 0, second_tim = 0, calls = 0;
+    bool have_tmp = false;
+    int tmp = 0;
+    Rearm() : convertor(this) {}
+    cocls::suspend_point<void> conv(int &v, cocls::promise<int> &p) {
+        calls++;
+        if (have_tmp) {
+            have_tmp = false;
+            return p(tmp + v);
+        }
+        have_tmp = true;
+        tmp = v;
+        convertor(std::move(p)) << [&] { return second.make(second_out, second_tim); };
+        return {};
+    }
+    cocls::future_conv<&Rearm::conv> convertor;
+};
 struct CallFnOwner {
     Probe probe;
     cocls::suspend_point<void> done(cocls::future<int> &f) noexcept {
@@ -135,6 +155,45 @@ static std::string describe(int ad, int out, int tim, int cthrow) {
     std::ostringstream o;
     o << "adapter=" << ad << ":" << ad_names[ad] << ";outcome=" << out_names[out] << ";timing=" << tim_names[tim] << ";converter_throws=" << cthrow;
     return o.str();
+}
+
+static void run_rearm(seqx::Runner &R, int tim1, int out2, int tim2) {
+    std::ostringstream d;
+    d << "rearm;first_timing=" << tim1 << ";second_outcome=" << out2 << ";second_timing=" << tim2;
+    R.begin(d.str());
+    int64_t base = seqx::live_allocs();
+    {
+        Rearm r;
+        r.second_out = out2;
+        r.second_tim = tim2;
+        Src<int> first;
+        Probe outer;
+        {
+            std::unique_ptr<cocls::future<int>> o(new cocls::future<int>(r.convertor << [&] { return first.make(O_VALUE, tim1); }));
+            R.step();
+            if (tim1 == T_LATER) first.resolve(O_VALUE);
+            if (tim2 == T_LATER) {
+                if (o->ready()) R.fail("cb/fired-before-resolution", "two-step converter completed before its second source was resolved");
+                r.second.resolve(out2);
+            }
+            R.step();
+            int ek = out2 == O_VALUE ? 1 : out2 == O_EXC ? 2 : 3;
+            if (!o->ready()) {
+                R.fail("cb/never-fired", "two-step converter: outer future still pending after both sources were resolved");
+                (void)o.release();  // a pending future cannot be destroyed
+            } else {
+                classify_future(*o, outer);
+                if (outer.kind != ek || (ek == 1 && outer.val != 10))
+                    R.fail("cb/converter-wrong-delivery", "two-step converter: outer future holds kind=%d val=%d, expected kind=%d val=10", outer.kind, outer.val, ek);
+                int want_calls = 2;  // the second step's result (value, exception or broken promise) is presented to the converter
+                (void)want_calls;
+            }
+        }
+        R.outcome(seqx::mix((uint64_t)outer.kind, 99));
+        R.state(seqx::hash_str(d.str()));
+    }
+    if (!R.case_fail && seqx::live_allocs() != base) R.fail("cb/helper-not-freed-once", "%ld allocations not released", (long)(seqx::live_allocs() - base));
+    R.end(true);
 }
 
 static void run_cell(seqx::Runner &R, int ad, int out, int tim, int cthrow) {
@@ -322,10 +381,21 @@ void seqx_run(seqx::Runner &R, const std::string &) {
                     if (ct && (!is_conv || ad == A_CONV_STATIC)) continue;
                     if (R.next_case()) run_cell(R, ad, out, tim, ct);
                 }
+    for (int t1 = 0; t1 < NTIM; t1++)
+        for (int o2 = 0; o2 < NOUT; o2++)
+            for (int t2 = 0; t2 < NTIM; t2++)
+                if (R.next_case()) run_rearm(R, t1, o2, t2);
 }
 
 void seqx_replay(seqx::Runner &R, const std::string &c) {
     seq_warmup();
+    if (c.rfind("rearm;", 0) == 0) {
+        int t1 = 0, o2 = 0, t2 = 0;
+        sscanf(c.c_str(), "rearm;first_timing=%d;second_outcome=%d;second_timing=%d", &t1, &o2, &t2);
+        R.next_case();
+        run_rearm(R, t1, o2, t2);
+        return;
+    }
     int ad = atoi(c.c_str() + c.find("adapter=") + 8);
     int out = 0, tim = 0;
     for (int i = 0; i < NOUT; i++)
